@@ -312,6 +312,41 @@ def files_bounded(seed, n):
     return n, bad
 
 
+def flag_consistency():
+    """E: for every flag byte, the same one-block tape read as TAP, as TZX 0x10 and as the PZX file written by
+    write_pzx gives the same edges up to the end of the data (PZX adds its 945 T-state tail pulse after them)."""
+    import skoolkit.tape as T
+    tmp = tempfile.mkdtemp(prefix='c11f_')
+    bad = []
+    try:
+        for flag in range(256):
+            blk = [flag, 0x55, 0xA3]
+            fn = os.path.join(tmp, 'x.tap')
+            T.write_tap(fn, [blk])
+            with open(fn, 'rb') as f:
+                tap = T.parse_tap(f.read())
+            fn2 = os.path.join(tmp, 'x.pzx')
+            T.write_pzx(fn2, [blk])
+            with open(fn2, 'rb') as f:
+                pzx = T.parse_pzx(f.read())
+            tzx = bytes(b'ZXTape!\x1a\x01\x14') + bytes([0x10, 0xE8, 0x03, 3, 0]) + bytes(blk)
+            t10 = T.parse_tzx(tzx, timings=True)
+            for b in list(tap.blocks) + list(pzx.blocks) + list(t10.blocks):
+                b.keys = None
+            e1, d1 = T.get_edges([b for b in tap.blocks if b.timings], 0, 0)
+            e2, d2 = T.get_edges([b for b in t10.blocks if b.timings], 0, 0)
+            e3, d3 = T.get_edges([b for b in pzx.blocks if b.timings], 0, 0)
+            if e1 != e2:
+                bad.append((flag, 'TAP vs TZX 0x10', len(e1), len(e2)))
+            elif e3[:len(e1)] != e1 or len(e3) not in (len(e1), len(e1) + 1):
+                bad.append((flag, 'TAP vs PZX (up to the end of the data)', len(e1), len(e3)))
+            elif [(d.start, d.end) for d in d1] != [(d.start, d.end) for d in d3]:
+                bad.append((flag, 'TAP vs PZX data-block ranges', [(d.start, d.end) for d in d1], [(d.start, d.end) for d in d3]))
+    finally:
+        shutil.rmtree(tmp, ignore_errors=True)
+    return 256, bad
+
+
 def run(tier):
     rep = common.Report('C11', tier, 'other', './check C11 --tier %s' % tier)
     rep.trust('pyvc, z3 for the kernel VCs; CPython for the bounded parts')
@@ -348,6 +383,12 @@ def run(tier):
     rep.exhaustive.append({'domain': 'pulse counts %s x used bits 1..8 x last byte 0..255 (durations symbolic)' % combos, 'size': sum(r[1] for r in res), 'visited': sum(r[1] for r in res), 'complete': True})
     check_constants(rep)
     check_pzx_puls(rep)
+    nf, badf = flag_consistency()
+    rep.add_bulk(nf - len(badf), 'exhaustive', 0, 'skoolkit.tape._get_tape_block_timings / write_pzx / get_edges (pilot length per flag byte)', n=nf)
+    rep.exhaustive.append({'domain': 'flag bytes 0..255: TAP, TZX 0x10 and written-PZX forms of the same block give the same edges up to the end of the data', 'size': nf, 'visited': nf, 'complete': True})
+    if badf:
+        rep.violation('C11/flag-byte/%s' % badf[0][1].split(' (')[0].replace(' ', '-'), 'flag byte %d (and %d more): %s: %s vs %s' % (badf[0][0], len(badf) - 1, badf[0][1], badf[0][2], badf[0][3]),
+                      {'case': {'flag_byte': badf[0][0], 'block': [badf[0][0], 0x55, 0xA3]}, 'observed_vs_expected': [list(map(str, b)) for b in badf[:5]]})
     n, bad = edges_bounded(common.seed(), 400 if quick else 6000)
     rep.bounded.append({'function': 'skoolkit.tape.get_edges', 'contract': 'edge list == independently built pulse train; non-decreasing; data-block indices; distances decode to the bits',
                         'bound': '%d generated tapes (1-3 blocks, pulses, tails, pauses, used bits 1..8, unequal pulse counts)' % n, 'evaluations': n})
@@ -390,6 +431,14 @@ def replay(path):
         doc = json.load(f)
     case = doc.get('case')
     print('replaying', doc.get('key'), case)
+    if isinstance(case, dict) and 'flag_byte' in case:
+        n_, bad = flag_consistency()
+        bad = [b for b in bad if b[0] == case['flag_byte']]
+        print(bad)
+        if bad:
+            print('VIOLATION property=C11 replay=%s' % path)
+            return 1
+        return 0
     if isinstance(case, dict) and 'used_bits' in case:
         c, d = concrete_kernel(len(case['zero']), len(case['one']), case['used_bits'], case['data'])
         print(d)
